@@ -115,7 +115,11 @@ def pure_result(nid, nspec, beh, kwargs, rec_start=None):
     if rec_start is not None and 'rec_n' in beh:
         it = dict(tags).get(rec_start, 0)
         if it < beh['rec_n']:
-            return ('rec', 0 if beh.get('rec_data') == 'zero' else it + 1)
+            if beh.get('rec_data') == 'zero':
+                return ('rec', 0)
+            if beh.get('rec_data') == 'none_after_first':
+                return ('rec', None if it >= 1 else 1)
+            return ('rec', it + 1)
     if 'labels' in beh:
         # the label depends on the iteration the arguments belong to (switch nodes inside recurrent subgraphs)
         it = max([t for _, t in tags], default=0)
